@@ -31,6 +31,9 @@ type C05Case struct {
 	BufSize int        `json:"buf_size"`
 	Ctor    string     `json:"ctor"` // new | reset
 	Reads   []int      `json:"reads"`
+	// CutRel != nil (bufio sources): the underlying reader never lets one Read cross the offset
+	// (end of the DEFLATE data) + *CutRel
+	CutRel *int `json:"cut_rel,omitempty"`
 }
 
 func drawSuffix(t *rapid.T) []byte {
@@ -76,10 +79,29 @@ func drawC05(t *rapid.T) C05Case {
 		for i := 0; i < rapid.IntRange(1, 2).Draw(t, "tiny"); i++ {
 			c.Suffix = append(c.Suffix, byte(0xA0+i))
 		}
+		if rapid.Bool().Draw(t, "finalstored") {
+			// the stream ends in a final stored block WITH data, and the output window fills k bytes
+			// before the end: the last k bytes come out of the bit buffer / look-ahead after a
+			// window-full continuation
+			k := rapid.SampledFrom([]int{1, 1, 2, 2, 3, 3, 4, 5, 7, 8, 9, 40}).Draw(t, "fsk")
+			n = 65536*rapid.IntRange(1, 3).Draw(t, "fswin") + k
+			data = gen.Recipe{Segs: []gen.Seg{gen.DrawSeg(t, n)}}
+			set.Level = rapid.SampledFrom([]int{0, 1, 6, 9}).Draw(t, "fslevel")
+			c.Stream = StreamSpec{Kind: "std", Data: &data, Set: &set, Ops: []gen.Op{{K: "W", N: n}},
+				Tail: rapid.SampledFrom([]int{k, k, k + 1, k + 5, 300, 65535}).Draw(t, "fstail")}
+			cut := rapid.IntRange(-9, 9).Draw(t, "cutrel")
+			c.CutRel = &cut
+		}
 	}
 	c.SrcKind = rapid.SampledFrom([]string{"bufio", "bufio", "bufio", "bufio", "bytes.Reader", "bytes.Buffer", "strings.Reader", "custom"}).Draw(t, "srckind")
 	c.BufSize = rapid.SampledFrom([]int{16, 17, 31, 64, 100, 327, 328, 329, 4095, 4096, 4097, 65536}).Draw(t, "bufsize")
 	c.Ctor = rapid.SampledFrom([]string{"new", "reset"}).Draw(t, "ctor")
+	if c.CutRel != nil {
+		c.SrcKind = "bufio"
+		if rapid.Bool().Draw(t, "bigbufio") {
+			c.BufSize = 1 << 20
+		}
+	}
 	c.Reads = drawReadSizes(t)
 	return c
 }
@@ -101,7 +123,11 @@ func checkC05(c C05Case) (labels []string, nontrivial bool, err error) {
 	var src io.Reader
 	switch c.SrcKind {
 	case "bufio":
-		src = bufio.NewReaderSize(bytes.NewReader(all), c.BufSize)
+		cut := 0
+		if c.CutRel != nil {
+			cut = len(z) - map[string]int{"gzip": 8, "zlib": 4}[c.Pkg] + *c.CutRel
+		}
+		src = bufio.NewReaderSize(cutSource(bytes.NewReader(all), cut), c.BufSize)
 	case "bytes.Reader":
 		src = bytes.NewReader(all)
 	case "bytes.Buffer":
@@ -173,6 +199,12 @@ func checkC05(c C05Case) (labels []string, nontrivial bool, err error) {
 	labels = append(labels, "pkg:"+c.Pkg, "src:"+c.SrcKind, "ctor:"+c.Ctor)
 	if c.SrcKind == "bufio" {
 		labels = append(labels, fmt.Sprintf("bufio:%d", c.BufSize))
+	}
+	if c.Stream.Tail > 0 {
+		labels = append(labels, "stream-ends-in-final-stored-block-with-data")
+	}
+	if c.CutRel != nil {
+		labels = append(labels, "source-chunk-boundary-near-stream-end")
 	}
 	return labels, len(c.Suffix) >= 1, nil
 }
